@@ -23,6 +23,7 @@ type thread struct {
 	blocked func() bool // non-nil: thread may run only when this returns true
 	name    string
 	polls   int
+	where   string
 }
 
 type channel struct {
@@ -130,6 +131,16 @@ func (i *Interp) runnable() []*thread {
 func (i *Interp) yield(cond func() bool) {
 	cur := i.cur
 	cur.blocked = cond
+	if cond != nil && i.curFr != nil {
+		cur.where = ""
+		for f, k := i.curFr, 0; f != nil && k < 4; f, k = f.caller, k+1 {
+			pos := ""
+			if f.curInstr != nil {
+				pos = i.prog.Fset.Position(f.curInstr.Pos()).String()
+			}
+			cur.where += " < " + f.fn.String() + " " + pos
+		}
+	}
 	cands := i.runnable()
 	if len(cands) == 0 {
 		panic(pathAbort{kind: "deadlock", msg: "all goroutines are blocked (" + i.describeThreads() + ")"})
@@ -219,7 +230,7 @@ func (i *Interp) describeThreads() string {
 		if t.done {
 			st = "done"
 		} else if t.blocked != nil {
-			st = "blocked"
+			st = "blocked at" + t.where
 		}
 		s += fmt.Sprintf("[%d %s %s]", t.id, t.name, st)
 	}
@@ -504,15 +515,13 @@ func (i *Interp) pollYield() {
 	cur := i.cur
 	others := false
 	for _, t := range i.threads {
-		if t != cur && !t.done {
+		if t != cur && !t.done && !t.killed && (t.blocked == nil || t.blocked()) {
 			others = true
 		}
 	}
 	if !others {
-		i.path.polls++
-		if i.path.polls > i.cfg.MaxPolls {
-			panic(pathAbort{kind: "deadlock", msg: "goroutine polls forever and no other goroutine can change the condition"})
-		}
+		// nobody else can run: time passes, the poller continues (endless polling is
+		// caught by the step bound)
 		return
 	}
 	mark := i.switches
